@@ -62,6 +62,9 @@ def check_aggregator(ds, cfg, kind, f, labs, Xd, Xd_dev, stats):
         except Exception as e:
             impl, want = f"{type(e).__name__}: {e}"[:200], None
         stats["aggregations"] = stats.get("aggregations", 0) + 1
+        # the other hypotheses of `C02.stage1_rows` / `stage2_rows` / `dev_rows`: distinct base labels, every row holds one of them
+        met = len(set(alll)) == len(alll) and set(col[f].tolist()) <= set(alll)
+        stats["rows_hypotheses_met" if met else "rows_hypotheses_not_met"] = stats.get("rows_hypotheses_met" if met else "rows_hypotheses_not_met", 0) + 1
         if impl != want:
             fails.append({"kind": "correspondence", "what": f"the carver's _aggregator ({sample} sample) does not count the rows the harness counts",
                           "feature": f, "labels": alll, "impl": str(impl)[:300], "rows": str(want)[:300]})
